@@ -376,9 +376,13 @@ func (server *Server) readRequestBody(ctx *Context) (err error) {
 func (server *Server) callService(ctx *Context) {
 	var err error
 	if ctx.upgrade.Stream == openStream {
+		// Acknowledge the stream before the handler can write its first message.
+		f, args := ctx.f, ctx.args
+		server.sendResponse(ctx)
 		go func() {
-			ctx.f.ValueCall(ctx.args)
+			f.ValueCall(args)
 		}()
+		return
 	} else if ctx.upgrade.Stream == streaming {
 		if streamCtx := ctx.ctx; streamCtx != nil {
 			value := GetBuffer(len(ctx.value))
